@@ -390,7 +390,7 @@ func (w *wnWorld) exec0(phase int, o gosim.Op) {
 			}
 			w.delEpoch[f.id] = w.epoch
 			f.apiDeleted = true
-			f.pinned = false
+			// (deleting a file does not unpin its reference: f.pinned stays)
 			w.mu.Unlock()
 			r.Count("probe_deleted")
 		}
